@@ -21,6 +21,10 @@ Fails(e) ==
       [] e.op = "eta" -> EtaFails(e)
       [] e.op = "jit_compose" -> JitComposeFails(e)
       [] e.op = "steps" -> StepsFails(e)
+      [] e.op = "curve_trace" -> CurveTraceFails(e)
+      [] e.op = "derive" -> DeriveFails(e)
+      [] e.op = "dmin_iter" -> DminIterFails(e)
+      [] e.op = "curve_ext" -> CurveExtFails(e)
       [] e.op = "cost" -> CostFails(e)
       [] e.op = "demand" -> DemandFails(e)
       [] e.op = "search" -> SearchFails(e)
